@@ -214,6 +214,8 @@ struct Out {
     line: usize,
     regions: Vec<Region>,
     closure_items: Vec<String>,
+    /// (function, kinds of its loops in pre-order after normalisation)
+    loop_kinds: Vec<(String, String)>,
     /// reachability probes (thorough tier): `assert(false)` at every function entry and loop-body start must be REFUTED
     probe: bool,
 }
@@ -410,9 +412,12 @@ fn emit_fn(d: &FnDirective, srcs: &mut Sources, out: &mut Out, stats: &mut norm:
         norm::from_stmt(&mut block, &pfx.replace('~', " "), &desc, stats);
     }
     let before_pfx: Vec<String> = d.before.iter().map(|b| b.0.clone()).collect();
-    let (nloops, before_hits, nclosures) = norm::normalise(&mut block, &d.opts, stats, &desc, &before_pfx);
+    let (nloops, before_hits, nclosures, loop_kinds) = norm::normalise(&mut block, &d.opts, stats, &desc, &before_pfx);
     if nclosures > 0 {
         out.closure_items.push(item_name.clone());
+    }
+    if nloops > 0 {
+        out.loop_kinds.push((item_name.clone(), loop_kinds));
     }
     for (k, h) in before_hits.iter().enumerate() {
         if *h != 1 {
@@ -646,7 +651,7 @@ fn main() {
     }
     let mut lines: Vec<String> = Vec::new();
     expand(&PathBuf::from(need("template")), &mut lines, 0, &[]);
-    let mut out = Out { text: String::new(), line: 0, regions: Vec::new(), closure_items: Vec::new(), probe: std::env::var("ZX_PROBE").map(|v| v == "1").unwrap_or(false) };
+    let mut out = Out { text: String::new(), line: 0, regions: Vec::new(), closure_items: Vec::new(), loop_kinds: Vec::new(), probe: std::env::var("ZX_PROBE").map(|v| v == "1").unwrap_or(false) };
     let mut stats = norm::Stats::default();
     let mut cur_fn: Option<(FnDirective, usize)> = None;
     // section within fn directive
@@ -885,7 +890,10 @@ fn main() {
     m.push_str("  ],\n  \"unspecified_closures\": [");
     let ci: Vec<String> = out.closure_items.iter().map(|c| format!("\"{}\"", escape_json(c))).collect();
     m.push_str(&ci.join(", "));
-    m.push_str("],\n  \"normalisations\": {\n");
+    m.push_str("],\n  \"loop_kinds\": {");
+    let lk: Vec<String> = out.loop_kinds.iter().map(|(i, k)| format!("\"{}\": \"{}\"", escape_json(i), k)).collect();
+    m.push_str(&lk.join(", "));
+    m.push_str("},\n  \"normalisations\": {\n");
     let n = stats.counts.len();
     for (k, (name, c)) in stats.counts.iter().enumerate() {
         let _ = write!(m, "    \"{}\": {}{}\n", escape_json(name), c, if k + 1 < n { "," } else { "" });
